@@ -50,6 +50,7 @@ func Run(prop string, c *Ctx) bool {
 	if !ok {
 		return false
 	}
+	paramActual = c.P.Actual
 	// a rule that panics on code it does not expect must fail its property, not the process:
 	// the evidence is still written and the other properties still run
 	func() {
